@@ -14,7 +14,7 @@ Allowed(r) ==
   /\ r.stdout = e.stdout                                          \* "css" = byte-identical to the library's CSS, else "none"
   /\ (e.outfile = "css" => r.outfile = "css")
   /\ (e.outfile = "none" => r.outfile = "none")
-  /\ (e.outfile = "empty" => r.outfile \in {"empty", "none"})    \* a failed run may leave an empty file, never CSS
+  /\ (e.outfile = "empty" => r.outfile \in {"empty", "none", "stale"})   \* a failed run may leave an empty or the old file, never CSS
   /\ ("error" \in ToSet(e.stderr) => r.errmatches)               \* stderr ends with the rendered library error
   /\ ("ioerror" \in ToSet(e.stderr) => r.stderrnonempty)
   /\ (("warning" \in ToSet(e.stderr)) = r.haswarning)             \* warnings on stderr iff not quiet
